@@ -714,3 +714,112 @@ theorem retainList_sub (l : List Nat) : ∀ rest, (retainList subClosure rest l)
     cases (Arr.gallop rest x).head? == some x <;> rfl
 
 end Roaring.Unsafe
+
+/-! ### `retain` with a stateless predicate (fidelity audit) -/
+
+namespace Roaring.Unsafe
+open Roaring
+
+/-- `retain` with a stateless predicate (the closures `|x| rhs.contains(x)` / `|x| !rhs.contains(x)` of
+    `ArrayStore &= &BitmapStore` / `-= &BitmapStore`) keeps exactly `List.filter` -/
+theorem retainList_filter (p : Nat → Bool) : ∀ l : List Nat,
+    (retainList (fun (_ : Unit) x => ((), p x)) () l).1 = l.filter p := by
+  intro l
+  induction l with
+  | nil => rfl
+  | cons x l ih =>
+    simp only [retainList, ih, List.filter_cons]
+
+theorem retain_filter (p : Nat → Bool) (vec : Array Nat) :
+    (retain (fun (_ : Unit) x => ((), p x)) () vec).1.toList = vec.toList.filter p := by
+  rw [(retain_eq _ _ _).1, retainList_filter]
+
+
+end Roaring.Unsafe
+
+/-! ### the in-place `&=` / `-=` closures with the index state of the Rust (fidelity audit) -/
+
+namespace Roaring.Unsafe
+open Roaring
+
+theorem drop_position (p : Nat → Bool) : ∀ (t : List Nat) (n : Nat), t.length ≤ n →
+    t.drop ((position p t).getD n) = t.dropWhile (fun y => !p y) := by
+  intro t
+  induction t with
+  | nil => intro n _; simp [position]
+  | cons y ys ih =>
+    intro n hn
+    simp only [List.length_cons] at hn
+    by_cases hp : p y = true
+    · simp [position, hp]
+    · have hp' : p y = false := by simpa using hp
+      simp only [position, hp', Bool.false_eq_true, if_false, List.dropWhile_cons, Bool.not_false, if_true]
+      rw [← ih n (by omega)]
+      cases h : position p ys with
+      | none => simp only [Option.map_none, Option.getD_none]; rw [List.drop_eq_nil_of_le (by simp; omega), List.drop_eq_nil_of_le (by omega)]
+      | some k => simp
+
+theorem gallop_idx (rhs : List Nat) (i x : Nat) :
+    rhs.drop (i + ((position (fun y => decide (y ≥ x)) (rhs.drop i)).getD rhs.length)) = Arr.gallop (rhs.drop i) x := by
+  rw [← List.drop_drop, drop_position _ _ _ (by simp)]
+  unfold Arr.gallop
+  congr 1
+  funext y
+  by_cases h : y < x
+  · simp [h, Nat.not_le.mpr h]
+  · simp [h, Nat.not_lt.mp h]
+
+theorem getElem?_eq_head_drop (l : List Nat) (i : Nat) : l[i]? = (l.drop i).head? := by
+  simp [List.head?_drop]
+
+theorem andClosureIdx_eq (rhs : List Nat) (i x : Nat) :
+    rhs.drop (andClosureIdx rhs i x).1 = (andClosure (rhs.drop i) x).1
+    ∧ (andClosureIdx rhs i x).2 = (andClosure (rhs.drop i) x).2 := by
+  unfold andClosureIdx andClosure
+  refine ⟨gallop_idx rhs i x, ?_⟩
+  simp only []
+  rw [getElem?_eq_head_drop, gallop_idx]
+  cases (Arr.gallop (rhs.drop i) x).head? with
+  | none => rfl
+  | some y => simp only [Option.some_beq_some]; exact Bool.beq_comm
+
+theorem subClosureIdx_eq (rhs : List Nat) (i x : Nat) :
+    rhs.drop (subClosureIdx rhs i x).1 = (subClosure (rhs.drop i) x).1
+    ∧ (subClosureIdx rhs i x).2 = (subClosure (rhs.drop i) x).2 := by
+  unfold subClosureIdx subClosure
+  refine ⟨gallop_idx rhs i x, ?_⟩
+  simp only []
+  rw [getElem?_eq_head_drop, gallop_idx]
+  cases (Arr.gallop (rhs.drop i) x).head? with
+  | none => rfl
+  | some y => simp only [Option.some_beq_some, bne]; rw [Bool.beq_comm]
+
+theorem retainList_andIdx (rhs : List Nat) (l : List Nat) : ∀ i,
+    (retainList (andClosureIdx rhs) i l).1 = (retainList andClosure (rhs.drop i) l).1 := by
+  induction l with
+  | nil => intro i; rfl
+  | cons x l ih =>
+    intro i
+    simp only [retainList]
+    rw [ih, (andClosureIdx_eq rhs i x).1, (andClosureIdx_eq rhs i x).2]
+
+theorem retainList_subIdx (rhs : List Nat) (l : List Nat) : ∀ i,
+    (retainList (subClosureIdx rhs) i l).1 = (retainList subClosure (rhs.drop i) l).1 := by
+  induction l with
+  | nil => intro i; rfl
+  | cons x l ih =>
+    intro i
+    simp only [retainList]
+    rw [ih, (subClosureIdx_eq rhs i x).1, (subClosureIdx_eq rhs i x).2]
+
+/-- `ArrayStore &= &ArrayStore` exactly as written (index-level `retain` loop, closure state = the index `i` into `rhs`,
+    started at `i = 0`) is the list-level model -/
+theorem retain_andIdx (vec rhs : Array Nat) :
+    (retain (andClosureIdx rhs.toList) 0 vec).1.toList = Arr.andAssign vec.toList rhs.toList := by
+  rw [(retain_eq _ _ _).1, retainList_andIdx, List.drop_zero, retainList_and]
+
+theorem retain_subIdx (vec rhs : Array Nat) :
+    (retain (subClosureIdx rhs.toList) 0 vec).1.toList = Arr.subAssign vec.toList rhs.toList := by
+  rw [(retain_eq _ _ _).1, retainList_subIdx, List.drop_zero, retainList_sub]
+
+end Roaring.Unsafe
